@@ -70,6 +70,7 @@ infallible_op!(op_trim_end_matches, ParseDirection::FromEnd, |p, pat, c| |u: boo
 
 fn op_skip<const CAP: usize>() {
     sym_parser_state!(s, p, a, b, base, flag, CAP);
+    sym_parser_dir!(s, p, a, b);
     let n: usize = kani::any();
     let q = p.skip(n);
     assert!(inv(s, base, q) && q.parse_direction() == ParseDirection::FromStart);
@@ -78,9 +79,11 @@ fn op_skip<const CAP: usize>() {
     assert!(q.start_offset() - (base + a) >= if n < b - a { n } else { b - a });
     must_reach!(n > 0 && n < b - a && q.start_offset() - (base + a) > n, "rounded up to the next boundary");
     must_reach!(n == usize::MAX, "skip(usize::MAX)");
+    must_reach!(n == 0 && p.parse_direction() == ParseDirection::FromEnd && b > a, "skip(0) on a from-end parser");
 }
 fn op_skip_back<const CAP: usize>() {
     sym_parser_state!(s, p, a, b, base, flag, CAP);
+    sym_parser_dir!(s, p, a, b);
     let n: usize = kani::any();
     let q = p.skip_back(n);
     assert!(inv(s, base, q) && q.parse_direction() == ParseDirection::FromEnd);
@@ -88,6 +91,7 @@ fn op_skip_back<const CAP: usize>() {
     assert!((base + b) - q.end_offset() >= if n < b - a { n } else { b - a });
     must_reach!(n > 0 && n < b - a && (base + b) - q.end_offset() > n, "rounded down to the previous boundary");
     must_reach!(n == usize::MAX, "skip_back(usize::MAX)");
+    must_reach!(n == 0 && p.parse_direction() == ParseDirection::FromStart && b > a, "skip_back(0) on a from-start parser");
 }
 
 macro_rules! fallible_op {
